@@ -2,7 +2,7 @@
 # usage: tools/confirm_seed.sh Cxx  — confirms a sub-agent's seeded change in its scratch worktree /tmp/seed/Cxx:
 # (1) HEAD + patch.diff: the repository's 319-test suite passes; (2) HEAD + patch + demo: demo fails;
 # (3) HEAD + demo only: demo passes. On success copies the deliverables to /verif/seeded/Cxx/.
-id="$1"; R=${SEEDROOT:-/tmp/seed}; D=${SEEDDEST:-/verif/seeded}; wt=$R/$id; T=/tmp/seed/target
+id="$1"; R=${SEEDROOT:-/tmp/seed}; D=${SEEDDEST:-/verif/seeded}; wt=$R/$id; T=${SEEDTARGET:-/tmp/seed/target}
 [ -f $wt/out/patch.diff ] || { echo "no patch"; exit 2; }
 clean() { git -C $wt reset -q --hard; git -C $wt clean -qfd -e out -e target; }
 demo=$(python3 -c "import json;print(json.load(open('$wt/out/meta.json'))['demo_cmd'])" | sed "s#CARGO_TARGET_DIR=[^ ]*##; s#^cd [^&]*&& *##")
